@@ -173,3 +173,8 @@ func lemmaHeaderRoundTripCompressed(c *codec, h *Header) (*Header, error) {
 //@   ensures flag: result1 == nil ==> result0 != nil && result0.IsSelfContained == h.IsSelfContained
 //@   ensures compressed: result1 == nil && h.UncompressedPayloadLength != 0 ==> result0.UncompressedPayloadLength == h.UncompressedPayloadLength && result0.CompressedPayloadLength == h.CompressedPayloadLength
 //@   ensures fallback: result1 == nil && h.UncompressedPayloadLength == 0 ==> result0.UncompressedPayloadLength == h.CompressedPayloadLength && result0.CompressedPayloadLength == 0
+
+//@ func NewCodecWithCompression
+//@   prop C15
+//@   nilable compressor
+//@   ensures nonnil: result != nil
